@@ -11,7 +11,10 @@ import (
 	"encoding/binary"
 	"fmt"
 	"strings"
+	"sync/atomic"
 	"time"
+
+	"github.com/nspcc-dev/neo-go/pkg/core/block"
 
 	"github.com/nspcc-dev/neo-go/pkg/config"
 
@@ -48,6 +51,14 @@ func gclongFlushes(r *prng.R, n int, mtb, gcp uint32, burst int) []uint32 {
 	return res
 }
 
+func hdrHeightOf(b *Batch) (uint32, bool) {
+	v, ok := b.KV["\xc1"]
+	if !ok || len(v) < 36 {
+		return 0, false
+	}
+	return binary.LittleEndian.Uint32(v[32:36]), true
+}
+
 func putHeight(b *Batch) (uint32, bool) {
 	v, ok := b.KV["\xc0"]
 	if !ok || len(v) < 36 {
@@ -73,7 +84,11 @@ func gcPages(bs []*Batch) string {
 }
 
 // runSubjectGC feeds the whole history; flushes (and the GC after them) are the node's own.
-func runSubjectGC(h *History, cfg config.Blockchain, flushAt []uint32, backend string) (*subjectRun, error) {
+// hdrAt/hdrTo (0 = none): when the flush planned at height hdrAt has happened and the GC cycle that follows it is
+// between its MPT pass and its header-hash pass, the headers hdrAt+1..hdrTo are delivered (AddHeaders from the GC
+// goroutine itself, through RecStore.afterGC): they - and a header-hash page they complete - sit in the write cache
+// while removeOldHeaderHashes deletes pages directly in the database (seeded C02-m8).
+func runSubjectGC(h *History, cfg config.Blockchain, flushAt []uint32, backend string, hdrAt, hdrTo uint32) (*subjectRun, error) {
 	inner, probe, cleanup, err := newProbedBackend(backend)
 	if err != nil {
 		return nil, err
@@ -94,6 +109,26 @@ func runSubjectGC(h *History, cfg config.Blockchain, flushAt []uint32, backend s
 	srh := cfg.StateRootInHeader
 	var accepted uint32
 	seenBatches, seenGC := 0, 0
+	var (
+		hdrArmed  atomic.Bool
+		hdrAdded  atomic.Bool
+		hdrErr    error
+		hdrBefore int // put batches recorded when the headers went in
+	)
+	if hdrAt != 0 {
+		sr.st.afterGC = func(pfx byte) {
+			if pfx != 0x03 || !hdrArmed.CompareAndSwap(true, false) {
+				return
+			}
+			var hs []*block.Header
+			for i := hdrAt + 1; i <= hdrTo; i++ {
+				hs = append(hs, &h.Blocks[i-1].Header)
+			}
+			hdrBefore = sr.st.NumBatches()
+			hdrErr = bc.AddHeaders(hs...)
+			hdrAdded.Store(true)
+		}
+	}
 	// emit turns the batches recorded since the last look into tie lines. Put batches are flushes; the GC
 	// calls between two flushes belong to the earlier one.
 	emit := func() {
@@ -119,6 +154,13 @@ func runSubjectGC(h *History, cfg config.Blockchain, flushAt []uint32, backend s
 			sr.timerHit = true // the timer fired inside a burst: the lines of this run are not comparable
 		}
 		sr.lines = append(sr.lines, [2]string{"flush", abstractBatch(puts[0], srh)})
+		if hdrAdded.CompareAndSwap(true, false) {
+			// the headers went in after this flush and before the page pass of its GC cycle
+			if hp, ok := hdrHeightOf(puts[0]); !ok || hp != hdrAt || accepted != hdrAt {
+				sr.timerHit = true
+			}
+			sr.lines = append(sr.lines, [2]string{fmt.Sprintf("hdr %d %d", hdrAt+1, hdrTo), "ok"})
+		}
 		var sb strings.Builder
 		for _, c := range calls[seenGC:] {
 			fmt.Fprintf(&sb, "%02x", c)
@@ -143,6 +185,9 @@ func runSubjectGC(h *History, cfg config.Blockchain, flushAt []uint32, backend s
 			sr.timerHit = true
 			emit()
 		}
+		if hdrAt != 0 && i == hdrAt && watch.started.Load() == watch.finished.Load() {
+			hdrArmed.Store(true)
+		}
 		if next < len(flushAt) && i == flushAt[next] {
 			next++
 			deadline := time.Now().Add(5 * time.Second)
@@ -157,6 +202,15 @@ func runSubjectGC(h *History, cfg config.Blockchain, flushAt []uint32, backend s
 	}
 	watch.wait()
 	emit()
+	if hdrErr != nil {
+		return nil, fmt.Errorf("subject AddHeaders %d..%d during the GC cycle: %w", hdrAt+1, hdrTo, hdrErr)
+	}
+	if hdrAt != 0 && hdrArmed.Load() {
+		sr.hdrDuringGC = -1 // the GC cycle never came
+	} else if hdrAt != 0 {
+		sr.hdrDuringGC = 1
+	}
+	_ = hdrBefore
 	closed = true
 	before := sr.st.NumBatches()
 	bc.Close()
